@@ -59,6 +59,10 @@ const (
 	ErrSliceToArr = "slice2arr"  // cannot convert slice with length n to array of length m
 	ErrNilMap     = "nilmap"     // assignment to entry in nil map
 	ErrUncomparable = "uncomparable" // comparing uncomparable / hash of unhashable type
+	// A failed TypeAssert of a nil interface to an interface type: the IR uses this both for a
+	// source-level x.(I) (Go: interface conversion error) and for the nil check of an
+	// interface method value i.m (Go: nil pointer dereference); the IR does not tell which.
+	ErrNilOrAssert = "nil-or-assert"
 )
 
 func rtPanic(kind string) {
@@ -314,7 +318,18 @@ func visitInstr(fr *frame, instr ir.Instruction) continuation {
 		fr.env[instr] = fr.get(instr.X)
 
 	case *ir.ChangeType:
-		fr.env[instr] = fr.get(instr.X) // (can't fail)
+		x := fr.get(instr.X) // (can't fail)
+		if fr.tenv != nil {
+			// In the body of a generic function a value of type parameter type T is turned into
+			// an interface by ChangeType (T's underlying type is its constraint interface);
+			// with T bound to a concrete type that is the construction of an interface value.
+			if src, dst := fr.typ(instr.X.Type()), fr.typ(instr.Type()); types.IsInterface(dst) && !types.IsInterface(src) {
+				if _, boxed := x.(iface); !boxed {
+					x = iface{t: src, v: x}
+				}
+			}
+		}
+		fr.env[instr] = x
 
 	case *ir.Convert:
 		fr.env[instr] = conv(fr.typ(instr.Type()), fr.typ(instr.X.Type()), fr.get(instr.X))
@@ -656,7 +671,13 @@ func prepareCall(fr *frame, call *ir.CallCommon) (fn value, args []value) {
 		// Interface method invocation.
 		recv, ok := v.(iface)
 		if !ok {
-			unsupported("invoke on a non-interface value (type parameter receiver)")
+			// "The interface value may be a type parameter": the receiver's static type is a
+			// type parameter, bound to a concrete type in this activation.
+			T := fr.typ(call.Value.Type())
+			if types.IsInterface(T) {
+				panic(fmt.Sprintf("invoke on a value of interface type %s that is not an interface value", T))
+			}
+			recv = iface{t: T, v: v}
 		}
 		if recv.t == nil {
 			rtPanic(ErrNil) // method invoked on nil interface
